@@ -94,6 +94,26 @@ theorem chineseFallback_ok {sh : Shared D L} (h : ShInv env G w sh) (ev : KeyEve
 theorem selInv_newSymbol (sh sh' : Shared D L) (hy : SymWF sh.symSel) : SelInv env w sh' (newSymbol sh) :=
   ⟨hy, fun h => by cases h⟩
 
+/-- the menu of a well-formed symbol selector answers (the open category is an existing table) -/
+theorem symMenu_ok {y : SymSel} (hy : SymWF y) : ∃ l, y.menu = .ok l := by
+  unfold SymSel.menu
+  split
+  · next c hc =>
+    have hlt := hy.cur c hc
+    rw [List.getElem?_eq_getElem hlt]
+    exact ⟨_, rfl⟩
+  · exact ⟨_, rfl⟩
+
+/-- `open_symbol` (FX1 repair): the symbol table opened, or — an empty table — the request ignored -/
+theorem openSymbol_ok {sh : Shared D L} (h : ShInv env G w sh) : StepOK env G w (openSymbol env sh) := by
+  obtain ⟨l, hl⟩ := symMenu_ok h.symOK
+  have hc : Selecting.candidates env (newSymbol sh) sh = .ok l := hl
+  unfold openSymbol
+  rw [hc]
+  cases l with
+  | nil => exact stepOK_spin h _
+  | cons a l => exact stepOK_to h _ (selInv_newSymbol sh sh h.symOK)
+
 theorem forSelect_clamp {e : CompEditor} {sym : Sym} (h : e.symbolForSelect = some sym) :
     e.pushCursor.clampCursor.inner = e.inner ∧
     e.pushCursor.clampCursor.cursor < e.inner.symbols.length ∧
@@ -203,13 +223,50 @@ theorem newSpecialSymbol_ok {sh : Shared D L} (h : ShInv env G w sh) {ch : Nat}
   | nil => exact stepOK_to hsh _ ⟨h.symOK, fun _ => .inr hrepl⟩
   | cons a l => exact stepOK_to hsh _ ⟨rfl, fun _ => .inr hrepl⟩
 
+/-- `open_special_symbol` (FX1 repair): the list `new_special_symbol` built, or — without candidates — the
+    saved cursor restored and the request ignored -/
+theorem openSpecialSymbol_ok {sh : Shared D L} (h : ShInv env G w sh) {ch : Nat}
+    (hs : sh.com.symbolForSelect = some (.chr ch)) : StepOK env G w (openSpecialSymbol env sh (.chr ch)) := by
+  obtain ⟨⟨sh1, t1⟩, hq, hi, ht⟩ := newSpecialSymbol_ok (env := env) (G := G) (w := w) h hs
+  obtain ⟨hsh1, hsel⟩ := newSpecialSymbol_shape hq
+  have hcur := cursor_le_of_symbolForSelect hs
+  have hcancel : Shared.cancelSelecting sh1 = sh := by
+    rw [hsh1]; unfold Shared.cancelSelecting; simp only [pop_push_clamp _ hcur]
+  have key : ∀ s, t1 = .toState (.selecting s) → StepOK env G w (openSpecialSymbol env sh (.chr ch)) := by
+    intro s hts
+    subst hts
+    have hsi : SelInv env w sh1 s := ht _ rfl
+    have hcand : ∃ cs, Selecting.candidates env s sh1 = .ok cs := by
+      unfold Selecting.candidates
+      have h1 := hsi.sel
+      split
+      · next p hp =>
+        rcases hsel with hh | hh <;> (injection hh with hh; injection hh with hh; rw [hh] at hp; cases hp)
+      · next y hy => rw [hy] at h1; exact symMenu_ok h1
+      · next sym hy =>
+        rw [hy] at h1
+        cases sym with
+        | syl k => simp [Sym.isSyl] at h1
+        | chr c => exact specialMenu_chr c
+    obtain ⟨cs, hcs⟩ := hcand
+    unfold openSpecialSymbol
+    rw [hq]
+    dsimp only
+    rw [hcs]
+    cases cs with
+    | nil => apply stepOK_spin; rw [hcancel]; exact h
+    | cons a l => exact stepOK_to hi _ hsi
+  rcases hsel with hh | hh
+  · exact key _ hh
+  · exact key _ hh
+
 theorem startSelecting_ok {sh : Shared D L} (h : ShInv env G w sh) : StepOK env G w (startSelecting env sh) := by
   unfold startSelecting
   split
   · next sym hs =>
     cases sym with
     | syl k => simp only [Sym.isSyl, if_true]; exact openPhrase_ok h hs
-    | chr ch => simp only [Sym.isSyl]; exact newSpecialSymbol_ok h hs
+    | chr ch => simp only [Sym.isSyl]; exact openSpecialSymbol_ok h hs
   · spin_of h
 
 theorem startSelectingOrInputSpace_ok {sh : Shared D L} (h : ShInv env G w sh) :
@@ -219,7 +276,7 @@ theorem startSelectingOrInputSpace_ok {sh : Shared D L} (h : ShInv env G w sh) :
   · next sym hs =>
     cases sym with
     | syl k => simp only [Sym.isSyl, if_true]; exact openPhrase_ok h hs
-    | chr ch => simp only [Sym.isSyl]; exact newSpecialSymbol_ok h hs
+    | chr ch => simp only [Sym.isSyl]; exact openSpecialSymbol_ok h hs
   · split
     · spin_of (h.congr rfl rfl rfl rfl rfl rfl)
     · spin_of h
@@ -232,7 +289,7 @@ theorem enteringDefault_ok {sh : Shared D L} (h : ShInv env G w sh) (ev : KeyEve
   unfold enteringDefault
   repeat' split
   all_goals first
-    | exact stepOK_to h _ (selInv_newSymbol sh sh h.symOK)
+    | exact openSymbol_ok h
     | exact inputChar_ok h _
     | exact stepOK_withCom_absorb h (insertChars_ok _ h.ced)
     | exact stepOK_withCom_absorb h (insertChr_ok h.ced _)
@@ -257,7 +314,7 @@ theorem enteringCtrlDigit_ok (hE : EnvOK env G) {sh : Shared D L} (h : ShInv env
     StepOK env G w (enteringCtrlDigit env sh c) := by
   unfold enteringCtrlDigit
   split
-  · exact stepOK_to h _ (selInv_newSymbol sh sh h.symOK)
+  · exact openSymbol_ok h
   · dsimp only
     split
     · exact learnTrans_ok (learnInRangeNotify_ok hE h _ _ (by omega))
